@@ -3,7 +3,8 @@
    driver of the VISS family (the operations of the history and handler families plus the VISS
    ones, against one broker).  Definitions only.
 
-   VISS operation lines (tok ::= 0 none | 1 k (the token of principal k) | 2 (a token that does not verify)):
+   VISS operation lines (tok ::= 0 none | 1 k (the token of principal k) | 2 (a token that does not verify)
+                             | 3 tok (any of these, presented to a server that runs with authorization disabled)):
      50 VGET   tok path                       -> [0 value ts] | [1 number reason]
      51 VSET   tok path text                  -> [0] | [1 number reason]
      52 VSUB   tok path                       -> [0 handle] | [1 number reason]
@@ -18,7 +19,7 @@ From KD Require Import Model.Values Model.Compare Model.Validate Model.Perm Mode
 Open Scope Z_scope.
 
 Inductive vtext := VTNone | VTScalar (s : list Z) | VTArray (l : list (list Z)).
-Inductive vtoken := TokNone | TokOf (k : Z) | TokBad.
+Inductive vtoken := TokNone | TokOf (k : Z) | TokBad | TokOpen.
 
 (* number and reason of a VISS error *)
 Inductive verr := VBadRequest | VTokenExpired | VTokenInvalid | VTokenMissing | VReadOnly | VForbidden
@@ -30,12 +31,14 @@ Definition verr_code (e : verr) : list Z :=
   | VNotFound => [404; 7] | VInvalidSubscription => [404; 8] | VInternal => [500; 9]
   end.
 
-(* resolve_permissions with authorization enabled *)
+(* resolve_permissions: with authorization enabled the token decides; with authorization disabled
+   (TokOpen: whatever the request carries) every request has ALLOW_ALL *)
 Definition viss_perms (st : state) (t : vtoken) : perms + verr :=
   match t with
   | TokNone => inr VTokenMissing
   | TokBad => inr VTokenInvalid
   | TokOf k => inl (get_perm st k)
+  | TokOpen => inl allow_all
   end.
 
 (* ---------- text -> typed value (Value::try_into_type; Rust's str::parse) ---------- *)
@@ -248,12 +251,17 @@ Definition vrecv_eager (k : nat) (s : csub) : csub * list (list Z) :=
       cs_registered := cs_registered s |}, map viss_event taken).
 
 (* ---------- driver ---------- *)
-Definition dec_tok (ts : list Z) : option (vtoken * list Z) :=
+Definition dec_tok_plain (ts : list Z) : option (vtoken * list Z) :=
   match ts with
   | 0 :: r => Some (TokNone, r)
   | 1 :: k :: r => Some (TokOf k, r)
   | 2 :: r => Some (TokBad, r)
   | _ => None
+  end.
+Definition dec_tok (ts : list Z) : option (vtoken * list Z) :=
+  match ts with
+  | 3 :: r => match dec_tok_plain r with Some (_, r') => Some (TokOpen, r') | None => None end
+  | _ => dec_tok_plain ts
   end.
 
 Definition dec_vtext (ts : list Z) : option vtext :=
